@@ -17,31 +17,11 @@ def type_class(vc, code):
     return vc.interp.get("types.tds_data_types")[code]
 
 
-class TsArr(object):
-    """TimestampArray over a file array of 16-byte records"""
-
-    def __init__(self, arr, names):
-        self.arr = arr
-        self.names = names
-
-    def sym_len(self):
-        return self.arr.sym_len()
-
-
-def _instantiate_ndarray_subclass(interp, cls, args, kwargs):
-    if cls.name == "TimestampArray":
-        a = args[0]
-        names = a.dtype_.names
-        if names not in (("second_fractions", "seconds"), ("seconds", "second_fractions")):
-            from pyvc.interp import ProgExc
-            raise ProgExc(ValueError, "fields")
-        return TsArr(a, names)
-    raise sym.Unsupported("ndarray subclass %s" % cls.name)
+from pyvc.npmodel import TsArr
 
 
 def _setup(interp):
     interp.contracts_at_calls["nptdms.base_segment:fromfile"] = fromfile_contract
-    interp.models[("instantiate", np.ndarray)] = _instantiate_ndarray_subclass
 
 
 def expected_dtype(code, order):
